@@ -396,7 +396,16 @@ func runFilterScenario(rt *Runtime, r *RunCtx, s *Script) {
 							guard("eth_uninstallFilter", func() { api.UninstallFilter(mine[op.Ref%len(mine)]) })
 						}
 					case "sleep": // fake time passes (filter deadlines are 5 minutes)
-						time.Sleep(time.Duration(1+op.Ref%400) * time.Second)
+						// durations around the 5-minute filter deadline line sleepers up with the timeout sweep and with the
+						// deadline timers of filters created at the same fake instant
+						secs := 1 + op.Ref%400
+						switch op.Ref % 5 {
+						case 0:
+							secs = 300
+						case 1:
+							secs = pick(newRng(uint64(op.Ref)), 150, 299, 301, 600)
+						}
+						time.Sleep(time.Duration(secs) * time.Second)
 						simrt.Yield("actor:woke")
 					}
 				}
